@@ -8,12 +8,13 @@ vars == <<cur, last>>
 None == [op |-> "none"]
 DurI(D) == Dur10(Zero, Zero, Zero, Zero, FromInt(D.h), FromInt(D.mi), FromInt(D.s), FromInt(D.ms), FromInt(D.us), FromInt(D.ns))
 Init == cur \in Times /\ last = None
-AddAct(D) == LET o == PlainTimeAdd(cur, DurI(D)) IN last' = [op |-> "add", a |-> cur, dur |-> D, out |-> o] /\ cur' = o.val
-SubAct(D) == LET o == PlainTimeSub(cur, DurI(D)) IN last' = [op |-> "subtract", a |-> cur, dur |-> D, out |-> o] /\ cur' = o.val
+\* via "td": the twin entry points add_time_duration / subtract_time_duration
+AddAct(D, via) == LET o == PlainTimeAdd(cur, DurI(D)) IN last' = [op |-> "add", a |-> cur, dur |-> D, via |-> via, out |-> o] /\ cur' = o.val
+SubAct(D, via) == LET o == PlainTimeSub(cur, DurI(D)) IN last' = [op |-> "subtract", a |-> cur, dur |-> D, via |-> via, out |-> o] /\ cur' = o.val
 UntilAct(b, lg) == last' = [op |-> "until", a |-> cur, b |-> b, lg |-> lg, out |-> PlainTimeDiff(cur, b, lg, "nanosecond", 1, "trunc", FALSE)] /\ cur' = b
 SinceAct(b, lg) == last' = [op |-> "since", a |-> cur, b |-> b, lg |-> lg, out |-> PlainTimeDiff(cur, b, lg, "nanosecond", 1, "trunc", TRUE)] /\ cur' = b
 Next == /\ (OneStep => last = None)
-        /\ \/ \E D \in Durs : AddAct(D) \/ SubAct(D)
+        /\ \/ \E D \in Durs, via \in {"dur", "td"} : AddAct(D, via) \/ SubAct(D, via)
            \/ \E b \in Times, lg \in TimeUnits : UntilAct(b, lg) \/ SinceAct(b, lg)
 Spec == Init /\ [][Next]_vars
 
